@@ -3,7 +3,8 @@ package fakes17
 // minich.go — a reference interpreter for the small SELECT subset the reader's selector planners emit
 // (WITH sub-queries, WHERE/GROUP BY/HAVING/ORDER BY/LIMIT, comparisons, and/or, IN lists and IN (with-name),
 // match(), bitShiftLeft(), groupBitOr(), toUInt64(), intDiv(), %, +, -, *, /, the aggregates argMax, argMaxMerge,
-// countMerge, count, min, max, sum), over in-memory tables.
+// countMerge, count, min, max, sum; array subscripts, splitByChar, format, (expr as name), arrayExists(x -> …, arr) with
+// tuple access x.1), over in-memory tables.
 // It is an oracle device: the text the real planner produced is executed on a generated database and the
 // rows go back to the real reader code through the scripted database/sql driver.
 //
@@ -23,6 +24,7 @@ import (
 	"math/big"
 	"regexp"
 	"sort"
+	"strconv"
 	"strings"
 )
 
@@ -196,7 +198,7 @@ func lexSQL(q string) ([]tok, error) {
 			res = append(res, tok{"id", q[i:j]})
 			i = j
 		default:
-			for _, s := range []string{"==", "!=", ">=", "<=", "<>", "(", ")", ",", "+", "-", "*", "/", "%", "=", ">", "<"} {
+			for _, s := range []string{"->", "==", "!=", ">=", "<=", "<>", "(", ")", "[", "]", ",", "+", "-", "*", "/", "%", "=", ">", "<"} {
 				if strings.HasPrefix(q[i:], s) {
 					res = append(res, tok{"sym", s})
 					i += len(s)
@@ -476,7 +478,27 @@ func (p *parser) expr(min int) (*Node, error) {
 	}
 }
 
+// unary = primary followed by any number of [index] (ClickHouse array subscript, 1-based)
 func (p *parser) unary() (*Node, error) {
+	n, err := p.primary()
+	if err != nil {
+		return nil, err
+	}
+	for p.sym("[") {
+		p.i++
+		idx, err := p.expr(0)
+		if err != nil {
+			return nil, err
+		}
+		if err := p.eat("]"); err != nil {
+			return nil, err
+		}
+		n = &Node{Kind: "index", Args: []*Node{n, idx}}
+	}
+	return n, nil
+}
+
+func (p *parser) primary() (*Node, error) {
 	t := p.peek()
 	switch {
 	case t.k == "sym" && t.s == "-":
@@ -506,12 +528,28 @@ func (p *parser) unary() (*Node, error) {
 		if err != nil {
 			return nil, err
 		}
+		if p.kw("as") { // (expr as name): an alias defined inside an expression
+			p.i++
+			if p.peek().k != "id" {
+				return nil, fmt.Errorf("minich: alias name expected")
+			}
+			e = &Node{Kind: "alias", S: p.peek().s, Args: []*Node{e}}
+			p.i++
+		}
 		return e, p.eat(")")
 	case t.k == "id":
 		if stopWords[strings.ToLower(t.s)] {
 			return nil, fmt.Errorf("minich: unexpected keyword %q", t.s)
 		}
 		p.i++
+		if p.sym("->") { // lambda: x -> body (only as a function argument)
+			p.i++
+			body, err := p.expr(0)
+			if err != nil {
+				return nil, err
+			}
+			return &Node{Kind: "lambda", S: t.s, Args: []*Node{body}}, nil
+		}
 		if p.sym("(") {
 			p.i++
 			n := &Node{Kind: "call", S: t.s}
@@ -548,10 +586,24 @@ type env struct {
 	out       Row   // already computed output columns (ORDER BY)
 	subs      map[string][]Value
 	depth     int
-	aliasBusy map[string]bool // aliases being expanded (an alias whose expression names itself unqualified is the column)
+	bind      map[string]Value // lambda variables and (expr as name) aliases
+	aliasBusy map[string]bool  // aliases being expanded (an alias whose expression names itself unqualified is the column)
 }
 
 func (e *env) col(name string) (Value, error) {
+	if v, ok := e.bind[name]; ok {
+		return v, nil
+	}
+	if j := strings.IndexByte(name, '.'); j > 0 { // x.1: element of the tuple bound to a lambda variable
+		if tv, ok := e.bind[name[:j]]; ok {
+			elems, ok := tv.Raw.([]Value)
+			k, err := strconv.Atoi(name[j+1:])
+			if tv.Kind != VRaw || !ok || err != nil || k < 1 || k > len(elems) {
+				return Value{}, fmt.Errorf("minich: bad tuple access %s", name)
+			}
+			return elems[k-1], nil
+		}
+	}
 	if e.out != nil {
 		if v, ok := e.out[name]; ok {
 			return v, nil
@@ -751,6 +803,34 @@ func (e *env) eval(n *Node) (Value, error) {
 		return Value{Kind: VInt, I: r, Bits: widen(a, b)}, nil
 	case "call":
 		return e.call(n)
+	case "alias":
+		v, err := e.eval(n.Args[0])
+		if err != nil {
+			return v, err
+		}
+		if e.bind == nil {
+			e.bind = map[string]Value{}
+		}
+		e.bind[n.S] = v
+		return v, nil
+	case "index":
+		a, err := e.eval(n.Args[0])
+		if err != nil {
+			return a, err
+		}
+		k, err := e.eval(n.Args[1])
+		if err != nil {
+			return k, err
+		}
+		elems, ok := a.Raw.([]Value)
+		if a.Kind != VRaw || !ok || k.Kind != VInt {
+			return Value{}, fmt.Errorf("minich: subscript of a non-array")
+		}
+		i := int(k.I.Int64())
+		if i < 1 || i > len(elems) {
+			return Str(""), nil // a subscript past the end of an Array(String) gives the default value ''
+		}
+		return elems[i-1], nil
 	}
 	return Value{}, fmt.Errorf("minich: cannot evaluate %s", n.Kind)
 }
@@ -783,6 +863,38 @@ func (e *env) call(n *Node) (Value, error) {
 	if aggregates[name] {
 		return e.aggregate(n)
 	}
+	if name == "arrayExists" {
+		if len(n.Args) != 2 || n.Args[0].Kind != "lambda" {
+			return Value{}, fmt.Errorf("minich: arrayExists(x -> cond, array) expected")
+		}
+		arr, err := e.eval(n.Args[1])
+		if err != nil {
+			return arr, err
+		}
+		elems, ok := arr.Raw.([]Value)
+		if arr.Kind != VRaw || !ok {
+			return Value{}, fmt.Errorf("minich: arrayExists over a non-array")
+		}
+		for _, el := range elems {
+			sub := &env{db: e.db, sel: e.sel, row: e.row, group: e.group, subs: e.subs, bind: map[string]Value{}}
+			for k, v := range e.bind {
+				sub.bind[k] = v
+			}
+			sub.bind[n.Args[0].S] = el
+			v, err := sub.eval(n.Args[0].Args[0])
+			if err != nil {
+				return v, err
+			}
+			ok, err := v.truthy()
+			if err != nil {
+				return Value{}, err
+			}
+			if ok {
+				return u8(true), nil
+			}
+		}
+		return u8(false), nil
+	}
 	args := make([]Value, len(n.Args))
 	for i, a := range n.Args {
 		v, err := e.eval(a)
@@ -812,6 +924,34 @@ func (e *env) call(n *Node) (Value, error) {
 		r := new(big.Int).Lsh(args[0].I, uint(args[1].I.Uint64()))
 		mask := new(big.Int).Sub(new(big.Int).Lsh(big.NewInt(1), uint(bits)), big.NewInt(1))
 		return Value{Kind: VInt, I: r.And(r, mask), Bits: bits}, nil // result type = type of the first argument
+	case "splitByChar":
+		if len(args) != 2 || args[0].Kind != VStr || args[1].Kind != VStr || len(args[0].S) != 1 {
+			return Value{}, fmt.Errorf("minich: splitByChar(char, String) expected")
+		}
+		var parts []Value
+		for _, p := range strings.Split(args[1].S, args[0].S) {
+			parts = append(parts, Str(p))
+		}
+		return RawValue(parts), nil
+	case "format":
+		if len(args) < 1 || args[0].Kind != VStr {
+			return Value{}, fmt.Errorf("minich: format(pattern, …) expected")
+		}
+		pieces := strings.Split(args[0].S, "{}")
+		if len(pieces) != len(args) {
+			return Value{}, fmt.Errorf("minich: format: %d placeholders, %d arguments", len(pieces)-1, len(args)-1)
+		}
+		var b strings.Builder
+		for i, p := range pieces {
+			b.WriteString(p)
+			if i+1 < len(args) {
+				if args[i+1].Kind != VStr {
+					return Value{}, fmt.Errorf("minich: format of a non-string")
+				}
+				b.WriteString(args[i+1].S)
+			}
+		}
+		return Str(b.String()), nil
 	case "toUInt64":
 		if len(args) != 1 || args[0].Kind != VInt {
 			return Value{}, fmt.Errorf("minich: toUInt64(int) expected")
